@@ -61,14 +61,15 @@ def make_scratch(mut):
                 shutil.rmtree(d, ignore_errors=True)
                 raise RuntimeError("patch does not apply: %s %s" % (mut["name"], r.stderr + r.stdout))
     else:
-        path = os.path.join(d, mut["file"])
-        with open(path) as f:
-            s = f.read()
-        if s.count(mut["old"]) != 1:
-            shutil.rmtree(d, ignore_errors=True)
-            raise RuntimeError("mutant %s: pattern occurs %d times in %s" % (mut["name"], s.count(mut["old"]), mut["file"]))
-        with open(path, "w") as f:
-            f.write(s.replace(mut["old"], mut["new"]))
+        for (file_, old_, new_) in [(mut["file"], mut["old"], mut["new"])] + [tuple(x) for x in mut.get("more", [])]:
+            path = os.path.join(d, file_)
+            with open(path) as f:
+                s = f.read()
+            if s.count(old_) != 1:
+                shutil.rmtree(d, ignore_errors=True)
+                raise RuntimeError("mutant %s: pattern occurs %d times in %s" % (mut["name"], s.count(old_), file_))
+            with open(path, "w") as f:
+                f.write(s.replace(old_, new_))
     return d
 
 
